@@ -74,4 +74,14 @@ PROPS["C03"] = {
     "assumptions": ["KeySigner.SignHash contract as in C02"],
 }
 
+PROPS["C18"] = {
+    "harness": {"kind": "overlay", "pkg": "pkg/p2p/libp2p", "pkgname": "libp2p",
+                "files": ["libp2p/c17_test.go", "libp2p/c18_test.go"], "test": "TestVerifC18"},
+    "level_text": "Theorems: for every scalar d < 2^256 (hence every count of leading zero bytes) the padded key has exactly 32 bytes and denotes d; the key extracted from a secp256k1 identity peer id is the key it was built from; therefore the address derived from the node's transport identity equals the address of the key's public point, for every hash function and every curve satisfying the compress/decompress round trip. Tied to the real pipeline (PadKeyTo32Bytes, UnmarshalSecp256k1PrivateKey, peer id, GetEthAddressFromPeerID) against crypto.PubkeyToAddress for keys with exactly 0..31 leading zero bytes, scalars 1 and n-1, keys whose public coordinates have leading zero bytes, random keys; padded bytes, peer-id bytes and addresses are compared with the model's (Lean Keccak); a sample of keys goes through the real libp2p.New.",
+    "level_note": "Trusted: Lean kernel; harness; the secp256k1 group law and point compression are parameters (the round-trip law is a hypothesis of the coherence theorem, discharged by go-ethereum on every generated key); libp2p's peer-id encoding is modelled at byte level for secp256k1 identity ids and compared on every case.",
+    "nontrivial_rule": "distinct (tag, number of leading zero bytes of the key) classes, counted as distinct (tag, model pad prefix) pairs",
+    "class_of": lambda c, r: str(len(c["in"]["d"])),
+    "assumptions": ["libp2p derives the host identity from the key passed to libp2p.Identity"],
+}
+
 NOT_CLAIMED = {}
